@@ -6,7 +6,10 @@ ALL = ["C%02d" % i for i in range(1, 21)]
 # claims/Cnn.json: {"technique", "level_text", "level_note", "design_ref"} for every claimed property
 import glob
 CLAIMED = {}
+# only properties listed in claims/ENABLED (integrated: fixes committed, check green on the unchanged tree) are claimed
+ENABLED = set(open(os.path.join(ROOT, "claims", "ENABLED")).read().split())
 for f in sorted(glob.glob(os.path.join(ROOT, "claims", "C*.json"))):
+    if os.path.basename(f)[:-5] not in ENABLED: continue
     d = json.load(open(f)); CLAIMED[os.path.basename(f)[:-5]] = (d["technique"], d["level_text"], d["level_note"], d.get("design_ref", "DESIGN.md " + os.path.basename(f)[:-5]))
 PENDING_REASON = "check not built yet in this round (planned, see DESIGN.md section 8); not claimed until its harness has run to completion on the unchanged tree"
 checks = []
